@@ -87,7 +87,7 @@ Definition get_dist_tag (k : key) (t : bytes) (d : db) : option bytes :=
 Definition version_exists (k : key) (v : bytes) (d : db) : bool :=
   existsb (beq v) (get_versions k d).
 
-Definition s_latest : bytes := [108;97;116;101;115;116].
+Definition tag_latest : bytes := [108;97;116;101;115;116].
 
 (* Iterator::max_by: the last maximal element *)
 Fixpoint max_by_parsed (l : list (bytes * version)) : option (bytes * version) :=
@@ -106,7 +106,7 @@ Definition candidates (ignore_prerelease : bool) (vs : list bytes) : list (bytes
                      end) vs.
 
 Definition get_latest_version (ignore_prerelease : bool) (k : key) (d : db) : option bytes :=
-  match get_dist_tag k s_latest d with
+  match get_dist_tag k tag_latest d with
   | Some v => Some v
   | None => option_map fst (max_by_parsed (candidates ignore_prerelease (get_versions k d)))
   end.
